@@ -372,3 +372,7 @@ fn entry_offsets<E: Entry>(num_entries: usize) -> impl Iterator<Item=u64> {
     let entry_table_size = 4 + 4 * (num_entries as u64);
     (0..num_entries).map(move |entry| entry_table_size + (E::size() * entry) as u64)
 }
+
+#[cfg(kani)]
+#[path = "/verif/contracts/kani/mission.rs"]
+mod verif_kani;
